@@ -99,7 +99,76 @@ def fresh_env():
         for lab in PROPS:
             env[lab] = odml.Property(name=INIT_NAMES[lab])
     env['_extras'] = []
+    # population: every object this history has ever seen (pool, objects the operations returned, objects found in
+    # a child list after some step) - kept for good, whether or not it is still reachable from a root
+    env['_pop'] = [env[lab] for lab in POOL]
+    env['_popids'] = set(id(o) for o in env['_pop'])
+    env['_made'] = []           # the part of it the library made itself (copies by merge / link resolution / clone)
     return env
+
+
+def harvest(env):
+    """Add to the population: what the operations created (env['_extras']) and every object listed in a child list
+    below any object of the population (bounded walk over private fields).  Called after every step of a history,
+    so that an object that is dropped from its list later is still known."""
+    pop, ids, made = env['_pop'], env['_popids'], env['_made']
+    for o in env['_extras']:
+        if id(o) not in ids and isinstance(o, (BaseDocument, BaseSection, BaseProperty)):
+            ids.add(id(o))
+            pop.append(o)
+    stack = list(pop)
+    steps = 0
+    while stack and steps < 5000:
+        steps += 1
+        n = stack.pop()
+        kids = []
+        if isinstance(n, (BaseDocument, BaseSection)):
+            kids += _kids(n, 's')
+        if isinstance(n, BaseSection):
+            kids += _kids(n, 'p')
+        for c in kids:
+            if id(c) not in ids and isinstance(c, (BaseSection, BaseProperty)):
+                ids.add(id(c))
+                pop.append(c)
+                made.append(c)
+                stack.append(c)
+
+
+def population(env):
+    return list(env['_pop'])
+
+
+def made_obj(env, which):
+    """'HS' / 'HP': the oldest Section / Property of the population that the library made itself."""
+    cls = BaseSection if which == 'HS' else BaseProperty
+    for o in env['_made']:
+        if isinstance(o, cls):
+            return o
+    return None
+
+
+def doc_path(sec):
+    """Absolute path text of a Section that lives in a Document, from private fields; None otherwise."""
+    names = []
+    n = sec
+    steps = 0
+    while getattr(n, '_parent', None) is not None and steps < 50:
+        steps += 1
+        names.append(n._name)
+        n = n._parent
+    if isinstance(n, BaseDocument) and names:
+        return '/' + '/'.join(reversed(names))
+    return None
+
+
+def link_text(env, target):
+    """The link text an operation ('set_link', S, target) assigns."""
+    if target is None:
+        return None
+    if target == 'nowhere':
+        return '/no/such/section'
+    t = env[target]
+    return doc_path(t) or '/' + str(t._name)
 
 
 def all_ops():
@@ -205,6 +274,22 @@ def all_ops():
     for o in ('D', 'S0', 'P0'):
         for kind in ('valid', 'upper', 'braced', 'truncated', 'garbage'):
             ops.append(('new_id', o, kind))
+    # link resolve / clean: operations that make the library create copies and drop them again
+    for a in SECS:
+        for t in SECS + (None, 'nowhere'):
+            ops.append(('set_link', a, t))          # incl. a link to itself; resolved at once when a has a parent
+        ops.append(('merge_link', a))               # merge() without argument: resolve the recorded link
+        for b in SECS:
+            ops.append(('unmerge', a, b))
+    for c in CONTS:
+        ops.append(('clean', c))
+    ops.append(('finalize', 'D'))
+    # parent assignment of an object the library made itself (oldest copy made by merge / link resolution / clone),
+    # attached or dropped meanwhile
+    for par in CONTS + (None,):
+        ops.append(('adopt', 'HS', par))
+    for par in SECS + (None,):
+        ops.append(('adopt', 'HP', par))
     return ops
 
 
@@ -265,6 +350,21 @@ def apply_op(op, env):
         g(op[1]).merge(g(op[2]))
     elif kind == 'new_id':
         g(op[1]).new_id(ID_KINDS[op[2]])
+    elif kind == 'set_link':
+        g(op[1]).link = link_text(env, op[2])
+    elif kind == 'merge_link':
+        g(op[1]).merge()
+    elif kind == 'unmerge':
+        g(op[1]).unmerge(g(op[2]))
+    elif kind == 'clean':
+        g(op[1]).clean()
+    elif kind == 'finalize':
+        g(op[1]).finalize()
+    elif kind == 'adopt':
+        o = made_obj(env, op[1])
+        if o is None:
+            return 'n/a'                # the library has not made such an object in this history
+        o.parent = None if op[2] is None else g(op[2])
     else:
         raise AssertionError(op)
 
@@ -272,7 +372,8 @@ def apply_op(op, env):
 def run_op(op, env):
     with h.quiet():
         try:
-            apply_op(op, env)
+            if apply_op(op, env) == 'n/a':
+                return 'n/a', None
             return 'ret', None
         except Timeout:
             raise
@@ -285,6 +386,7 @@ def replay(history):
     env = fresh_env()
     for op in history:
         run_op(op, env)
+        harvest(env)
     return env
 
 
@@ -331,6 +433,12 @@ def _ancestors(node, limit=50):
 def canon(env):
     """Canonical, hashable description of the whole state (identities -> pool labels)."""
     labels = {id(env[lab]): lab for lab in POOL}
+    tracked = pool_objs(env)
+    for which in ('HS', 'HP'):          # the library-made objects the 'adopt' operations refer to
+        o = made_obj(env, which)
+        if o is not None:
+            labels[id(o)] = which
+            tracked.append(o)
 
     def name_cls(o):
         if o._name == o._id:
@@ -350,12 +458,12 @@ def canon(env):
         if depth > 12:
             return ('deep',)
         return ('S', lab(s), name_cls(s), lab(s._parent), s._definition, s._reference,
-                lab(getattr(s, '_merged', None)),
+                lab(getattr(s, '_merged', None)), s._link, getattr(s, '_merged_attributes', None),
                 tuple(prop(p) if isinstance(p, BaseProperty) else ('?',) for p in _kids(s, 'p')),
                 tuple(sec(c, depth + 1) if isinstance(c, BaseSection) else ('?',) for c in _kids(s, 's')))
 
     out = []
-    for r in h.roots_of(pool_objs(env)):
+    for r in h.roots_of(tracked):
         if isinstance(r, BaseDocument):
             out.append(('D', lab(r), tuple(sec(c, 0) if isinstance(c, BaseSection) else ('?',)
                                            for c in _kids(r, 's'))))
@@ -390,13 +498,20 @@ CATEGORIES = (
 STRUCTURAL = ('section-is-own-ancestor', 'parent-child-links-consistent', 'child-list-content-type')
 
 # which pre-state features can matter for which clause (others are incidental and dropped from the class)
-_RAISE_CAUSES = ('wrong-object-type', 'invalid-cardinality-argument', 'unconvertible-value-argument',
+_RAISE_CAUSES = ('content-taken-over', 'link-recorded', 'linking-section-detached', 'unresolvable-link',
+                 'link-to-itself-or-own-ancestor', 'link-into-own-subtree', 'self-unmerge',
+                 'unmerge-of-the-merged-section', 'unmerge-of-another-section', 'copy-marked-as-taken-over',
+                 'wrong-object-type', 'invalid-cardinality-argument', 'unconvertible-value-argument',
                  'name-clash-at-destination', 'name-clash-among-siblings', 'duplicate-name-inside-argument',
                  'same-object-twice-inside-argument', 'index-out-of-range', 'replaces-itself', 'not-a-child',
                  'object-detached', 'id-truncated', 'id-garbage', 'id-upper', 'id-braced', 'id-valid')
 _CYCLE_CAUSES = ('destination-is-self', 'destination-in-own-subtree', 'destination-inside-source',
                  'destination-is-source', 'self-merge', 'source-inside-destination')
-_LINK_CAUSES = ('child-attached-elsewhere', 'child-already-in-destination', 'same-object-twice-inside-argument',
+_LIFE_CAUSES = ('content-taken-over', 'link-recorded', 'nothing-taken-over', 'linking-section-detached', 'link-cleared',
+                'unresolvable-link', 'link-to-itself-or-own-ancestor', 'link-into-own-subtree', 'self-unmerge',
+                'unmerge-of-the-merged-section', 'unmerge-of-another-section', 'library-made-copy',
+                'copy-marked-as-taken-over')
+_LINK_CAUSES = _LIFE_CAUSES + ('child-attached-elsewhere', 'child-already-in-destination', 'same-object-twice-inside-argument',
                 'replaces-itself', 'name-clash-at-destination', 'negative-index', 'index-beyond-end',
                 'index-out-of-range') + _CYCLE_CAUSES
 _NAME_CAUSES = ('name-clash-at-destination', 'name-clash-among-siblings', 'duplicate-name-inside-argument',
@@ -433,8 +548,11 @@ def primary_clause(problems):
 
 
 def invariant(env):
-    """Inv(state): list of problems ([] == holds)."""
-    return invariant_of(pool_objs(env))
+    """Inv(state): list of problems ([] == holds), evaluated on the WHOLE population of the history: every object
+    ever seen that reports a parent must be listed exactly once in that parent's child list (and in no list of any
+    other known container), whether or not it can still be reached from a root; its document must be the root of
+    its parent chain; the queries must terminate on it."""
+    return invariant_of(population(env))
 
 
 def invariant_of(pool, queries='all'):
@@ -577,7 +695,7 @@ def _count(v):
 
 
 def pre_snapshot(env):
-    return pre_snapshot_of(pool_objs(env))
+    return pre_snapshot_of(population(env))
 
 
 def pre_snapshot_of(objs):
@@ -587,7 +705,7 @@ def pre_snapshot_of(objs):
 
 def changed_on_raise(pre, env):
     """C06: compare all roots with the snapshots taken before the call. None == unchanged."""
-    return changed_on_raise_of(pre, pool_objs(env))
+    return changed_on_raise_of(pre, population(env))
 
 
 def changed_on_raise_of(pre, objs):
@@ -636,6 +754,17 @@ def _attach_features(env, dest, child, replace_index=None):
         if s._name == child._name:
             f.add('name-clash-at-destination')
     return f
+
+
+def _life_features(secs):
+    """What the earlier life left on the given Sections (private fields, before the call)."""
+    f = set()
+    for s in secs:
+        if getattr(s, '_merged', None) is not None:
+            f.add('content-taken-over')
+        if getattr(s, '_link', None) is not None:
+            f.add('link-recorded')
+    return f or {'nothing-taken-over'}
 
 
 def features(op, env):
@@ -756,6 +885,60 @@ def features(op, env):
         f.add('id-' + op[2])
     elif kind == 'ctor_doc':
         f.add('id-' + op[1])
+    elif kind == 'set_link':
+        a = g(op[1])
+        f |= _life_features([a])
+        if a._parent is None:
+            f.add('linking-section-detached')
+        if op[2] is None:
+            f.add('link-cleared')
+        elif op[2] == 'nowhere':
+            f.add('unresolvable-link')
+        else:
+            t = g(op[2])
+            ra, rt = h.roots_of([a])[0], h.roots_of([t])[0]
+            if t is a or any(t is x for x in _ancestors(a)):
+                f.add('link-to-itself-or-own-ancestor')
+            elif not (isinstance(ra, BaseDocument) and ra is rt):
+                f.add('unresolvable-link')
+            elif id(t) in _descendants(a):
+                f.add('link-into-own-subtree')
+    elif kind in ('merge_link', 'clean', 'finalize'):
+        top = g(op[1])
+        below = [top] if isinstance(top, BaseSection) else []
+        if kind != 'merge_link':
+            stack = list(_kids(top, 's'))
+            steps = 0
+            while stack and steps < 200:
+                steps += 1
+                n = stack.pop()
+                if isinstance(n, BaseSection) and not any(n is x for x in below):
+                    below.append(n)
+                    stack.extend(_kids(n, 's'))
+        f |= _life_features(below)
+    elif kind == 'unmerge':
+        a, b = g(op[1]), g(op[2])
+        f |= _life_features([a])
+        if a is b:
+            f.add('self-unmerge')
+        elif getattr(a, '_merged', None) is b:
+            f.add('unmerge-of-the-merged-section')
+        else:
+            f.add('unmerge-of-another-section')
+    elif kind == 'adopt':
+        o = made_obj(env, op[1])
+        if o is None:
+            f.add('no-library-made-object')
+        else:
+            f.add('library-made-copy')
+            if getattr(o, '_merged', None) is not None:
+                f.add('copy-marked-as-taken-over')
+            if op[2] is None:
+                f.add('to-none')
+                if o._parent is None:
+                    f.add('child-detached')
+            else:
+                f |= _attach_features(env, g(op[2]), o)
     return '+'.join(sorted(f)) if f else 'plain'
 
 
@@ -768,14 +951,18 @@ def evaluate(history, op):
     Returns (violations, post_state_key | None, outcome) ; violations = [(clause, detail)]."""
     env = replay(history)
     feat = features(op, env)
-    pre = pre_snapshot(env)
+    before = population(env)                    # the objects known before the call: these must be unchanged on raise
+    pre = pre_snapshot_of(before)
     n_extras = len(env['_extras'])
     try:
         with guard(10.0):
             outcome, exc = run_op(op, env)
     except Timeout:
         return [('operation-terminates', 'operation did not return within 10 s')], None, 'timeout', feat
+    if outcome == 'n/a':
+        return [], None, 'n/a', feat
     violations = []
+    harvest(env)                                # what this operation created or made reachable joins the population
     problems = invariant(env)
     for o in env['_extras'][n_extras:]:         # objects created by this very operation, attached or not
         if isinstance(o, BaseDocument):
@@ -791,7 +978,7 @@ def evaluate(history, op):
             # the pre-state satisfied Inv, the post-state is not even a forest: it changed
             ch = 'the state is no longer well-formed (%s)' % problems[0]
         else:
-            ch = changed_on_raise(pre, env)
+            ch = changed_on_raise_of(pre, before)
         if ch:
             violations.append(('unchanged-on-raise',
                                'raised %s: %s but %s' % (type(exc).__name__, str(exc)[:80], ch)))
@@ -1184,6 +1371,8 @@ def run_histories(tier='quick', seed=0, plan=None, walks=None, max_evaluations=N
             states_expanded += 1
             for op in OPS:
                 violations, key, outcome, feat = evaluate(hist, op)
+                if outcome == 'n/a':
+                    continue                # 'adopt' without a library-made object: nothing was evaluated
                 col.case(cls_key=(op[0], feat, outcome),
                          sample='%s ; %s' % (list(hist), op) if len(hist) > 5 else None)
                 if violations:
@@ -1203,6 +1392,8 @@ def run_histories(tier='quick', seed=0, plan=None, walks=None, max_evaluations=N
                     break
                 op = rnd.choice(OPS)
                 violations, key, outcome, feat = evaluate(hist, op)
+                if outcome == 'n/a':
+                    continue
                 col.case(cls_key=(op[0], feat, outcome))
                 if violations:
                     record(violations, hist + (op,), op, feat)
